@@ -235,6 +235,23 @@ def c1(repo: Repo) -> RuleResult:
             vals[var] = v
         return by_name(vals, calls)
 
+    def const_methods(cname: str) -> Dict[str, int]:
+        """zero-argument methods of the class that return one constant (ahead_nbits() == 16)"""
+        out_: Dict[str, int] = {}
+        try:
+            c0 = m.cls(cname, "_ast.py")
+            for nm_ in ("ahead_nbits",):
+                f0 = m.lookup(c0, nm_)
+                if f0 is None or len(f0.node.args.args) != 1:
+                    continue
+                vals_ = {n_.value.value for n_ in ast.walk(f0.node) if isinstance(n_, ast.Return) and isinstance(n_.value, ast.Constant) and isinstance(n_.value.value, int)}
+                rets_ = [n_ for n_ in ast.walk(f0.node) if isinstance(n_, ast.Return)]
+                if len(vals_) == 1 and len(rets_) == 1:
+                    out_[nm_] = vals_.pop()
+        except Inconclusive:
+            pass
+        return out_
+
     for cls, rel, qual, var, want, example in INTERVAL_CATALOGUE:
         cname, meth = qual.split(".")
         try:
@@ -242,6 +259,20 @@ def c1(repo: Repo) -> RuleResult:
         except Inconclusive as e:
             res.unsure(f"C1: {e}")
             continue
+        _cm = const_methods(cname)
+        _point0 = point
+
+        def point(var_: str, v_: int, _cm: Dict[str, int] = _cm, _p0: Any = _point0) -> Any:  # type: ignore[no-redef]
+            base_ = _p0(var_, v_)
+
+            def repl(a_: Any) -> Any:
+                if a_[0] == "mcall" and a_[1] in _cm and len(a_[2]) == 1:
+                    from .normal import C as _Ck
+
+                    return _Ck(_cm[a_[1]])
+                return base_(a_)
+
+            return repl
         if not any(e.kind == "raise" and cls in e.name for p_ in paths for e in p_.effects):
             res.bad(Finding("C1", fi.rel, fi.node.lineno, qual, "", f"{cls} is no longer raised here: the constraint `{ERROR_CATALOGUE[cls]}` is not enforced", witness=example, tag=f"{cls}:missing"))
             continue
@@ -547,6 +578,31 @@ def c1(repo: Repo) -> RuleResult:
                 if good:
                     got = (l2, h2)
         res.inst(part="options", option=name, accepted=str(got), documented=str((lo, hi)))
+        # a division by the value itself inside the validator: zero must have been excluded before
+        if isinstance(v, ast.Lambda) and len(v.args.args) == 1:
+            var0 = v.args.args[0].arg
+            divs = [d_ for d_ in ast.walk(v.body) if isinstance(d_, ast.BinOp) and isinstance(d_.op, (ast.Mod, ast.Div, ast.FloorDiv)) and isinstance(d_.right, ast.Name) and d_.right.id == var0]
+            if divs:
+                # bounds of the conjuncts evaluated before the division
+                l0_, h0_ = -INF, INF
+                top = v.body
+                if isinstance(top, ast.BoolOp) and isinstance(top.op, ast.And):
+                    for cj in top.values:
+                        if any(d_ is x_ for d_ in divs for x_ in ast.walk(cj)):
+                            break
+                        b0_ = _atom_bound(cj, False, var0) if not isinstance(cj, ast.BoolOp) else None
+                        if b0_ is None and isinstance(cj, ast.Compare) and len(cj.ops) == 2:
+                            # a chained comparison  lo <= v <= hi
+                            parts_ = [ast.Compare(left=cj.left, ops=[cj.ops[0]], comparators=[cj.comparators[0]]), ast.Compare(left=cj.comparators[0], ops=[cj.ops[1]], comparators=[cj.comparators[1]])]
+                            bs_ = [_atom_bound(x_, False, var0) for x_ in parts_]
+                            if all(b_ is not None for b_ in bs_):
+                                b0_ = (max(bs_[0][0], bs_[1][0]), min(bs_[0][1], bs_[1][1]))
+                        if b0_ is not None:
+                            l0_, h0_ = max(l0_, b0_[0]), min(h0_, b0_[1])
+                if l0_ <= 0 <= h0_:
+                    res.bad(Finding("C1", "compiler/bitproto/options.py", getattr(v, "lineno", 0), f"options.{name}", src_of(v), f"the validator of option {name} divides by the option value (`{src_of(divs[0])}`) although 0 passes the tests in front of it: ZeroDivisionError instead of a diagnostic", witness=f"option {name} = 0", tag=f"option:{name}:zero-division"))
+                    res.findings[-1].part = "options-total"
+                    continue
         if got is None:
             res.unsure(f"C1: validator of option {name} is not a conjunction of bounds")
         elif got != (lo, hi):
@@ -1524,9 +1580,13 @@ def c5(repo: Repo) -> RuleResult:
             f = Finding("C5", fo.rel, fo.node.lineno, fo.qual, shp, "the output file name is not <schema file base name> + '_bp' + extension" + (" (the proto's name is used although the file path is known)" if shp == from_name else ""), witness="foo.bitproto with `proto bar` -> foo_bp.h", tag="out_filename")
             f.part = "common"
             res.bad(f)
+        elif re.search(r"basename\(proto\.filepath\.(partition|split|rpartition|rsplit)\(", shp) or re.search(r"proto\.filepath\.(partition|split)\('\.'", shp):
+            f = Finding("C5", fo.rel, fo.node.lineno, fo.qual, shp, "the extension is cut from the whole path, not from the file's base name: a dot in a directory part of the path (./x.bitproto, ../protos/x.bitproto, dir.v1/x.bitproto) changes the output file name, the #include and the import lines", witness="bitproto c ./main.bitproto  ->  _bp.h instead of main_bp.h", tag="out-filename:whole-path")
+            f.part = "outfile"
+            res.bad(f)
         elif re.search(r"basename\(proto\.filepath\)\.(partition|split)\('\.'(, *\d+)?\)\[0\]", shp) or re.search(r"basename\(proto\.filepath\)\[: *[^\]]*\.(find|index)\('\.'\)\]", shp):
             f = Finding("C5", fo.rel, fo.node.lineno, fo.qual, shp, "the schema file's base name is cut at its FIRST dot: only the extension (the part after the last dot) is to be removed", witness="telemetry.v1.bitproto and telemetry.v2.bitproto both generate telemetry_bp.*: one silently overwrites the other", tag="out-filename:first-dot")
-            f.part = "common"
+            f.part = "outfile"
             res.bad(f)
         elif re.fullmatch(r"\{os\.path\.basename\(proto\.filepath\)\.(rpartition\('\.'\)\[0\]|rsplit\('\.', *1\)\[0\])\}_bp\{%s\}" % re.escape(ext), shp):
             continue  # the same as splitext for names with an extension (schema files have one)
